@@ -105,6 +105,22 @@ func driveAPI(input []byte, mu *sync.Mutex, evs *[][3]int, cur *int) {
 			return
 		}
 	}
+	// once more through a reader that never fails and always makes progress, but in the least convenient legal way (an empty read
+	// before every two bytes, the last data together with io.EOF): still only blocks and end-of-input
+	if len(input) <= 8192 {
+		var p2 *commonmark.BlockParser
+		call(opNew, func() int { p2 = commonmark.NewBlockParser(&dripReader{data: input}); return 0 })
+		eofs2 := 0
+		for steps := 0; eofs2 < 2 && steps < 1000000; steps++ {
+			var err error
+			if !call(opNext, func() int { _, err = p2.NextBlock(); return errCode(err) }) {
+				return
+			}
+			if err != nil {
+				eofs2++
+			}
+		}
+	}
 	ip := &commonmark.InlineParser{ReferenceMatcher: srefs}
 	for _, b := range sblocks {
 		b := b
